@@ -139,6 +139,18 @@ def LegalTrace {α} (st : Style) : List (In α) → List (Out α) → Prop
   | i :: is, o :: os => Legal st o i ∧ LegalTrace st is os
   | _, _ => True
 
+def LegalTrace.dec {α} (st : Style) : (is : List (In α)) → (os : List (Out α)) → Decidable (LegalTrace st is os)
+  | [], _ => isTrue (by simp [LegalTrace])
+  | _ :: _, [] => isTrue (by simp [LegalTrace])
+  | i :: is, o :: os =>
+    match (inferInstance : Decidable (Legal st o i)), LegalTrace.dec st is os with
+    | isTrue h1, isTrue h2 => isTrue ⟨h1, h2⟩
+    | isFalse h1, _ => isFalse (fun h => h1 h.1)
+    | _, isFalse h2 => isFalse (fun h => h2 h.2)
+
+instance {α} (st : Style) (is : List (In α)) (os : List (Out α)) : Decidable (LegalTrace st is os) :=
+  LegalTrace.dec st is os
+
 /-! ## Bit widths (`clog2`, `mk_bits`) -/
 
 /-- `clog2` of `pymtl3/datatypes/helpers.py` for positive arguments -/
